@@ -5,7 +5,7 @@ From Coq Require Import List NArith ZArith Bool Arith Lia.
 From Common Require Import Bytes Outcome.
 From Gen Require Import C11.
 From C11 Require Import Model Spec Util Proofs_loca Proofs_total Proofs_pad Proofs_glyf
-  Proofs_comp Proofs_simple Proofs_nf.
+  Proofs_comp Proofs_simple Proofs_nf Proofs_size.
 Import ListNotations.
 Local Open Scope N_scope.
 
@@ -190,3 +190,19 @@ Theorem decode_loca_sound : forall fmt loca glen offs,
   M_decode_loca fmt loca glen = Ok offs -> mono_from 0 offs /\ all_le glen offs.
 Proof. exact Proofs_loca.decode_loca_sound. Qed.
 Print Assumptions decode_loca_sound.
+
+(* allocation is linear in the input: Decode creates one Glyph per loca slot
+   (at most |loca|/2 - 1) and one GlyphComponent per component; the unpadded
+   encodings of all returned glyphs together fit into the glyf data, and each
+   component accounts for at least 4 of those bytes.  Everything else in the
+   result is a sub-slice of the input. *)
+Theorem decode_size_linear : forall e gg,
+  M_decode e = Ok gg ->
+  total_gsize gg <= len (e_glyf e) /\
+  (2 * (length gg + 1) <= length (e_loca e))%nat /\
+  Forall (fun g => 4 * ncomponents g <= gsize g) gg.
+Proof.
+  intros e gg H. destruct (decode_size e gg H) as [H1 H2]. split; [exact H1|]. split; [exact H2|].
+  apply Forall_forall. intros g _. apply components_le_gsize.
+Qed.
+Print Assumptions decode_size_linear.
